@@ -70,7 +70,7 @@ impl Statement {
 }
 
 fn statement_strategy() -> BoxedStrategy<Statement> {
-    let word = prop_oneof![Just("ISHARES"), Just("CORE"), Just("S&P"), Just("ETF"), Just("GIC"), Just("BANK"), Just("OF"), Just("CANADA"), Just("INDEX"), Just("(XIU)"), Just("(ZZZZZZ)"), Just("01/01/2025"), Just("4.00%"), Just("1Y"), Just("DUE"), Just("INT"), Just("CPD"), Just("5.000%"), Just("2025"), Just("500"), Just("5.00"), Just("60/40"), Just("U$"), Just("CL-A"), Just("100.0"), Just("7")];
+    let word = prop_oneof![Just("ISHARES"), Just("CORE"), Just("S&P"), Just("ETF"), Just("GIC"), Just("BANK"), Just("OF"), Just("CANADA"), Just("INDEX"), Just("(XIU)"), Just("(ZZZZZZ)"), Just("01/01/2025"), Just("4.00%"), Just("1Y"), Just("DUE"), Just("INT"), Just("CPD"), Just("5.000%"), Just("2025"), Just("500"), Just("5.00"), Just("60/40"), Just("U$"), Just("CL-A"), Just("100.0"), Just("7"), Just("ALLOCATION"), Just("MARKET VALUE"), Just("Combined"), Just("Current month:")];
     let line = proptest::collection::vec(word, 1..6).prop_map(|w| w.join(" "));
     let holding = (proptest::collection::vec(line, 1..5), 1u32..999_999_999, any::<bool>(), 0u8..3);
     (proptest::collection::vec(holding, 0..13), any::<u16>(), any::<bool>(), 0usize..3, any::<bool>()).prop_map(|(hs, m, earlier, junk, alt_total)| {
